@@ -8,25 +8,30 @@ VARIABLES tid, l, st, verdict
 vars == <<tid, l, st, verdict>>
 Ev == Traces[tid].events
 Family(c) == CASE c \in {"v2c:a", "v2c:b"} -> "v2c" [] c = "v1:a" -> "v1" [] OTHER -> "v3"
+\* `known`: a request of the current (SNMPv3) configuration has completed, i.e. the engine has been discovered.  Leaving a block puts the
+\* client back into the state it had on entering - a client that needed no discovery then needs none now.
 Apply(c, kv) == [timeout |-> IF Has(kv, "timeout") THEN kv.timeout ELSE c.timeout,
                  retries |-> IF Has(kv, "retries") THEN kv.retries ELSE c.retries,
                  creds |-> IF Has(kv, "creds") THEN kv.creds ELSE c.creds]
-St0 == [cfg |-> [timeout |-> 6, retries |-> 10, creds |-> "v2c:a"], stack |-> <<>>, lastOp |-> "init"]
+St0 == [cfg |-> [timeout |-> 6, retries |-> 10, creds |-> "v2c:a"], stack |-> <<>>, lastOp |-> "init", known |-> FALSE, kstack |-> <<>>]
 Blame(s) == CASE s.lastOp \in {"exit"} -> "not_restored"
               [] s.lastOp = "enter" -> "override_not_applied"
               [] s.lastOp \in {"configure_unknown", "enter_unknown"} -> "unknown_setting_changed_state"
               [] s.lastOp = "configure" -> "permanent_setting_lost"
               [] OTHER -> "settings_differ"
 On(s, e) ==
-  CASE e.e = "configure" -> [st |-> [s EXCEPT !.cfg = Apply(@, e.kv), !.lastOp = "configure"], cl |-> << <<"configure_failed", e.raised = "">> >>]
+  CASE e.e = "configure" -> [st |-> [s EXCEPT !.cfg = Apply(@, e.kv), !.lastOp = "configure", !.known = IF Has(e.kv, "creds") THEN FALSE ELSE @], cl |-> << <<"configure_failed", e.raised = "">> >>]
     [] e.e = "configure_unknown" -> [st |-> [s EXCEPT !.lastOp = "configure_unknown"], cl |-> << <<"unknown_setting_accepted", e.raised = "TypeError">> >>]
-    [] e.e = "enter" -> [st |-> [s EXCEPT !.stack = Append(@, s.cfg), !.cfg = Apply(@, e.kv), !.lastOp = "enter"], cl |-> << <<"reconfigure_failed", e.raised = "">> >>]
+    [] e.e = "enter" -> [st |-> [s EXCEPT !.stack = Append(@, s.cfg), !.cfg = Apply(@, e.kv), !.lastOp = "enter", !.kstack = Append(@, s.known),
+                                         !.known = IF Has(e.kv, "creds") THEN FALSE ELSE @], cl |-> << <<"reconfigure_failed", e.raised = "">> >>]
     [] e.e = "enter_unknown" -> [st |-> [s EXCEPT !.lastOp = "enter_unknown"], cl |-> << <<"unknown_setting_accepted", e.raised = "TypeError">> >>]
-    [] e.e = "exit" -> [st |-> [s EXCEPT !.cfg = s.stack[Len(s.stack)], !.stack = SubSeq(@, 1, Len(@) - 1), !.lastOp = "exit"],
+    [] e.e = "exit" -> [st |-> [s EXCEPT !.cfg = s.stack[Len(s.stack)], !.stack = SubSeq(@, 1, Len(@) - 1), !.lastOp = "exit",
+                                        !.known = s.kstack[Len(s.kstack)], !.kstack = SubSeq(@, 1, Len(@) - 1)],
                         cl |-> << <<"MACHINERY_exit_without_enter", s.stack # <<>>>>, <<"exception_swallowed_or_changed", e.how = e.observed>> >>]
     [] e.e = "request" ->
-         [st |-> [s EXCEPT !.lastOp = "request"],
+         [st |-> [s EXCEPT !.lastOp = "request", !.known = (Family(s.cfg.creds) = "v3" /\ e.ok)],
           cl |-> << <<"request_failed", e.ok>>,
+                    <<Blame(s) \o ":discovery_repeated", ~(Family(s.cfg.creds) = "v3" /\ s.known) \/ e.probes = 0>>,
                     <<Blame(s) \o ":timeout", e.timeout = s.cfg.timeout>>,
                     <<Blame(s) \o ":retries", e.retries = s.cfg.retries>>,
                     <<Blame(s) \o ":credentials", e.ident = s.cfg.creds>>,
